@@ -25,10 +25,17 @@ import (
 	"time"
 )
 
-const (
-	repoDir = "/repo"
-	goBin   = "go1.26.8"
-)
+const goBin = "go1.26.8"
+
+// repoDir: the tree under test.  VERIF_REPO points a development run at another
+// checkout (a scratch worktree with a seeded change applied, so that /repo stays
+// untouched); such runs write no evidence.
+var repoDir = func() string {
+	if d := os.Getenv("VERIF_REPO"); d != "" {
+		return d
+	}
+	return "/repo"
+}()
 
 // verifDir: the directory holding harness/, inject/, evidence/ ... - the
 // working directory when it looks like one (so that a snapshot of /verif
